@@ -54,11 +54,11 @@ def options(draw, src):
 def plan(tier, seed):
     nsh = 16
     specs = []
-    nfam = 900 if tier == "quick" else 20000
+    nfam = 1300 if tier == "quick" else 24000
     ngram = 500 if tier == "quick" else 12000
     ncomp = 150 if tier == "quick" else 4000
     for s in range(nsh):
-        specs.append({"kind": "families", "n": nfam // nsh, "seed": env.subseed(seed, ID, "fam", s), "nopts": 2 if tier == "quick" else 4,
+        specs.append({"kind": "families", "n": nfam // nsh, "shard": s, "nshards": nsh, "seed": env.subseed(seed, ID, "fam", s), "nopts": 2 if tier == "quick" else 4,
                       "budget_s": 80 if tier == "quick" else 1500})
         specs.append({"kind": "grammar", "n": ngram // nsh, "seed": env.subseed(seed, ID, "gram", s), "nopts": 2 if tier == "quick" else 4,
                       "budget_s": 80 if tier == "quick" else 1500})
@@ -98,7 +98,16 @@ def run_shard(spec):
         for _ in range(spec["nopts"]):
             one(src, data.draw(options(src)), label)
 
-    hyp.run(st.data(), go, spec["n"], spec["seed"], spec["budget_s"], acc, chunk=40)
+    if spec["kind"] == "families":
+        # every family gets the same share of the budget (round-robin over shards), so no idiom depends on sampling luck
+        names = sorted(families.FAMILIES)
+        mine = names[spec["shard"]::spec["nshards"]]
+        per = max(1, spec["n"] * spec["nshards"] // len(names))
+        for j, name in enumerate(mine):
+            strat = families.family_program(names=[name])
+            hyp.run(st.data(), go, per, env.subseed(spec["seed"], name), spec["budget_s"], acc, chunk=per)
+    else:
+        hyp.run(st.data(), go, spec["n"], spec["seed"], spec["budget_s"], acc, chunk=40)
     acc.extra["rule_fire_counts"] = fired_total
     return acc
 
